@@ -57,6 +57,25 @@ def run(ctx):
     if len(samples) < 3 and records:
         samples.append({"packet": C.hexs(records[3][0]), "seq": records[3][1], "stored": C.hexs(records[3][2])})
 
+    # pass 1b: a value handed to Persistence.Save stays what was encoded while the next value is being encoded (another goroutine's
+    # Save may still be reading it: a publish of the other level, a slow store)
+    cases2 = []
+    for i in range(0, len(pk) - 1, max(1, len(pk) // 60)):
+        (p1, s1, _), (p2, s2, _) = pk[i], pk[i + 1]
+        cases2.append(["enc2 %s %d %s %d" % (C.hexs(p1), s1, C.hexs(p2), s2)] * 3)
+    impl2, model2 = C.run_cases(ctx, "pure", cases2)
+    stats["enc2"] = 0
+    for case, io, mo in zip(cases2, impl2, model2):
+        stats["enc2"] += len(case)
+        if any(l.endswith("stable=false") for l in io):
+            v.violation("C15:value-not-stable", "a value handed to Save changed when the next value was encoded: the record under the first key no longer "
+                        "round-trips", {"port": "pure", "script": case[:1], "impl": io})
+        else:
+            d = C.first_diff(io, mo)
+            if d:
+                v.violation("C15:enc-diff", "encodeValue differs from the documented layout: impl %s model %s" % (d[1][:80], d[2][:80]),
+                            {"port": "pure", "script": case[:1], "impl": io, "model": mo})
+
     # pass 2: decode what the implementation stored; damage; truncate
     r = ctx.rng
     cases, meta = [], []
